@@ -138,7 +138,7 @@ impl Prop for C04 {
         "C04"
     }
     fn rule(&self) -> String {
-        "graphs of all 8 kinds built by construction: n in 0..=9 (oracle: enumeration of all simple paths with pruning) and n in 21..=34 (oracle: Floyd-Warshall + path counts on the shortest-path DAG; takes the parallel code path), shape catalogue mixed in, shuffled insertion order; weight modes unweighted / positive dyadic / tie-rich {1,2} / non-negative with zeros (distances and path validity only) / non-dyadic floats (distances bit-equal to a same-fold Bellman-Ford, path validity). Calls: single_source from every source with (first_only,with_paths) in {(F,T),(T,T),(F,F)}, in weighted and hop-count mode, multi_source on a generated source subset, all_pairs. Non-trivial = some pair has >= 2 shortest paths, or some pair is unreachable, or parallel edges of different weight exist; distinct = distinct serialised case. Exhaustive block: all graphs on <= 3 nodes of the 4 single-edge kinds.".into()
+        "graphs of all 8 kinds built by construction: n in 0..=9 (oracle: enumeration of all simple paths with pruning), n in 10..=20 and n in 21..=34 (oracle: Floyd-Warshall + path counts on the shortest-path DAG; takes the parallel code path), shape catalogue mixed in, shuffled insertion order; weight modes unweighted / positive dyadic / tie-rich {1,2} / non-negative with zeros (distances and path validity only) / non-dyadic floats (distances bit-equal to a same-fold Bellman-Ford, path validity). Calls: single_source from every source with (first_only,with_paths) in {(F,T),(T,T),(F,F)}, in weighted and hop-count mode, multi_source on a generated source subset, all_pairs. Non-trivial = some pair has >= 2 shortest paths, or some pair is unreachable, or parallel edges of different weight exist; distinct = distinct serialised case. Exhaustive block: all graphs on <= 3 nodes of the 4 single-edge kinds.".into()
     }
     fn assumptions(&self) -> Vec<String> {
         vec!["weights are non-negative; completeness of the path set is only asserted for strictly positive dyadic weights (exact sums)".into(), "the oracle library harness/src/oracle.rs".into()]
@@ -161,8 +161,9 @@ impl Prop for C04 {
     }
     fn strategy(&self, _tier: Tier) -> BoxedStrategy<SpCase> {
         let small = graph_strategy(&ALL_KINDS, 0, 9, max_edges_small, &[0, 1, 1, 3, 3, 2, 4], 4);
+        let mid = graph_strategy(&ALL_KINDS, 10, 20, max_edges_large, &[0, 1, 3, 4], 3);
         let large = graph_strategy(&ALL_KINDS, 21, 34, max_edges_large, &[0, 1, 3, 4], 3);
-        (prop_oneof![30 => small, 1 => large], any::<u32>()).prop_map(|(g, sources)| SpCase { g, sources }).boxed()
+        (prop_oneof![30 => small, 2 => mid, 1 => large], any::<u32>()).prop_map(|(g, sources)| SpCase { g, sources }).boxed()
     }
     fn random_cases(&self, tier: Tier) -> u32 {
         tier.pick(100_000, 1_000_000)
@@ -253,7 +254,7 @@ impl Prop for C04 {
         }
         out.class(format!("kind_{}", ng.spec().label()));
         out.class(format!("wmode_{}", case.g.wmode));
-        out.class(if small { "n<=10" } else { "n>20_parallel_path" });
+        out.class(if small { "n<=10" } else if n <= 20 { "n_11_to_20" } else { "n>20_parallel_path" });
         if case.g.shape != 0 {
             out.class(format!("shape_{}", case.g.shape));
         }
